@@ -764,7 +764,7 @@ func (t *Template) pipeline(context string, baseExprMutate Expression) (pipe *Pi
 }
 
 func (t *Template) command(baseExpr Expression) *CommandNode {
-	cmd := t.newCommand(t.peekNonSpace().pos)
+	cmd := t.newCommand(t.peekNonSpace().pos, t.lex.lineNumber())
 
 	if baseExpr == nil {
 		baseExpr = t.expression("command", "name")
@@ -1046,13 +1046,13 @@ func (t *Template) term() Node {
 	case itemUnderscore:
 		return t.newUnderscore(token.pos, t.lex.lineNumber())
 	case itemNil:
-		return t.newNil(token.pos)
+		return t.newNil(token.pos, t.lex.lineNumber())
 	case itemField:
 		return t.newField(token.pos, t.lex.lineNumber(), token.val)
 	case itemBool:
-		return t.newBool(token.pos, token.val == "true")
+		return t.newBool(token.pos, t.lex.lineNumber(), token.val == "true")
 	case itemCharConstant, itemComplex, itemNumber:
-		number, err := t.newNumber(token.pos, token.val, token.typ)
+		number, err := t.newNumber(token.pos, t.lex.lineNumber(), token.val, token.typ)
 		if err != nil {
 			t.error(err)
 		}
@@ -1068,7 +1068,7 @@ func (t *Template) term() Node {
 		if err != nil {
 			t.error(err)
 		}
-		return t.newString(token.pos, token.val, s)
+		return t.newString(token.pos, t.lex.lineNumber(), token.val, s)
 	}
 	t.backup()
 	return nil
